@@ -480,13 +480,17 @@ def maxGasLimit (balance gasPrice : Int) : Outcome Nat := do
   let q ← divInt .fCalcGas balance gasPrice
   pure (if 0 ≤ q && q < 18446744073709551616 then q.toNat else 18446744073709551615)
 
+/-- `if gasLimit == 0 { gasLimit = MaxGasLimit(balance, gasPrice) }` -/
+def gasLimitOf (e : Env) (balance : Int) : Outcome Nat :=
+  if e.tx.gasLimit == 0 then maxGasLimit balance e.gasPrice else .ok e.tx.gasLimit
+
 /-- `fee.TxMaxFee`: `none` = the "minimum required amount of gas" error. -/
 def txMaxFee (e : Env) (balance : Int) : Outcome (Option Int) :=
   if e.zeroFee then .ok (some 0)
   else if e.forkVersion < 2 then .ok (some (maxPayloadFee e.tx.payload.length))
   else do
-    let gl ← if e.tx.gasLimit == 0 then maxGasLimit balance e.gasPrice else pure e.tx.gasLimit
-    if txGas e > gl then pure none else pure (some (e.gasPrice * gl))
+    let gl ← gasLimitOf e balance
+    pure (if txGas e > gl then none else some (e.gasPrice * gl))
 
 /-- `(*transaction).ValidateMaxFee(balance, gasPrice, version)` -/
 def validateMaxFee (e : Env) (balance : Int) : Outcome Unit := do
@@ -638,27 +642,28 @@ def natCmp (a b : Nat) : Int := if a < b then -1 else if a > b then 1 else 0
 /-- `types.VoteList.Less(i, j)` on the two entries.  Since fix 3f9132cd the peer-id branch (`Candidate[7:]` of BOTH
 entries) is taken only when the j-th candidate has at least 7 bytes; before (site `tLessSlice` unguarded) a 39-byte
 candidate next to a shorter one made the second slice expression panic.  The slices keep their panic semantics. -/
+def lessKey (u : List Site) (a b : VoteEnt) : Outcome Int :=
+  if a.cand.length == 39 && (b.cand.length ≥ 7 || u.contains .tLessSlice) then do
+    let x ← sliceFrom .tLessSlice a.cand 7
+    let y ← sliceFrom .tLessSlice b.cand 7
+    pure (natCmp (bigOfBytes x) (bigOfBytes y))
+  else .ok (natCmp (bigOfBytes a.cand) (bigOfBytes b.cand))
+
 def voteLess (u : List Site) (a b : VoteEnt) : Outcome Bool :=
   if a.amt < b.amt then .ok true
   else if a.amt == b.amt then do
-    let c ← if a.cand.length == 39 && (b.cand.length ≥ 7 || u.contains .tLessSlice) then do
-        let x ← sliceFrom .tLessSlice a.cand 7
-        let y ← sliceFrom .tLessSlice b.cand 7
-        pure (natCmp (bigOfBytes x) (bigOfBytes y))
-      else pure (natCmp (bigOfBytes a.cand) (bigOfBytes b.cand))
-    let c := if c == 0 then bytesCmp a.cand b.cand else c
-    pure (c > 0)
+    let c ← lessKey u a b
+    pure ((if c == 0 then bytesCmp a.cand b.cand else c) > 0)
   else .ok false
 
 /-- Insert into a list sorted by `sort.Reverse(voteList)` (descending), comparing as insertion sort does. -/
 def insertDesc (u : List Site) (x : VoteEnt) : List VoteEnt → Outcome (List VoteEnt)
   | [] => .ok [x]
-  | y :: r => do
+  | y :: r =>
     -- Reverse.Less(x, y) = Less(y, x)
-    if ← voteLess u y x then pure (x :: y :: r)
-    else do
-      let r' ← insertDesc u x r
-      pure (y :: r')
+    voteLess u y x >>= fun b =>
+      if b then .ok (x :: y :: r)
+      else insertDesc u x r >>= fun r' => .ok (y :: r')
 
 /-- `sort.Sort(sort.Reverse(voteList))` (as an insertion sort: which pairs the library compares depends on its
 algorithm and on the map iteration order; the totality theorem is for every list and every pair). -/
@@ -706,12 +711,15 @@ def voteArgs (c : SysCtx) : Outcome Unit :=
 /-- `refreshAllVote` (unstaking): every old vote larger than the remaining stake is taken out of its
 tally (`cmd.sub(oldvote)`), put back with the new amount (`cmd.add`), and the tally is synced; issues in
 catalog order. -/
+def refreshOne (u : List Site) (e : Env) (newStaked : Nat) (i : Nat) : Outcome Unit := do
+  subOld e i (e.voteAmt.getD i 0 > newStaked)
+  if (e.voteRec.getD i false && e.voteAmt.getD i 0 > newStaked) && i != 0 then syncDao u e i true (oldCands e i) newStaked
+  else .ok ()
+
 def refreshAllVote (u : List Site) (e : Env) (newStaked : Nat) : List Nat → Outcome Unit
   | [] => .ok ()
   | i :: r => do
-    let touched := e.voteRec.getD i false && e.voteAmt.getD i 0 > newStaked
-    subOld e i (e.voteAmt.getD i 0 > newStaked)
-    if touched && i != 0 then syncDao u e i true (oldCands e i) newStaked else pure ()
+    refreshOne u e newStaked i
     refreshAllVote u e newStaked r
 
 /-- `newSysCmd` + `cmd.run()` after a successful validation. -/
@@ -724,7 +732,7 @@ def sysRun (u : List Site) (e : Env) (c : SysCtx) : Outcome Unit :=
     -- run(): updateVoteResult: sub(old vote), add(new vote), Sync
     subOld e c.issue true
     addNew e c.proposal c.ci.args
-    if c.proposal then syncDao u e c.issue (e.voteRec.getD c.issue false) (daoCands c.ci.args) e.staked else pure ()
+    if c.proposal then syncDao u e c.issue (e.voteRec.getD c.issue false) (daoCands c.ci.args) e.staked else .ok ()
 
 /-- `system.ExecuteSystemTx` -/
 def sysExecute (u : List Site) (e : Env) : Outcome Unit := do
